@@ -115,7 +115,13 @@ class Judge:
             r = gxz.parse(out, concatenated=False)
             if r.verdict not in ("ok", "truncated"):
                 return r.output, False, None, "glue verdict %s at %s (%s)" % (r.verdict, r.error_offset, r.detail)
-            return r.output, r.verdict == "ok", tokens_from_xz(r, self.enc), r.verdict
+            o = r.output
+            if r.verdict == "truncated" and r.streams and r.streams[0]["blocks"]:
+                B = r.streams[0]["blocks"][-1]
+                if "unpadded_size" not in B and _pre_of(B["filters"]) == "x86":
+                    # a BCJ decoder cannot know the last bytes of an unfinished Block yet
+                    o = o[:max(len(o) - min(5, B.get("out_size", 0)), 0)]
+            return o, r.verdict == "ok", tokens_from_xz(r, self.enc), r.verdict
         if self.chain0["lz"] == "lzma1":
             lc, lp, pb = PROPS[self.chain0["props"]]
             if len(out) < 5:
@@ -126,7 +132,9 @@ class Judge:
             done = r.status == "ok_eopm" and r.consumed == len(out)
             if r.status == "ok_eopm" and not done:
                 return r.out, False, None, "bytes after the end marker"
-            o = self._unfilter(r.out) if done or self.chain0["pre"] != "x86" else r.out
+            o = self._unfilter(r.out)
+            if self.chain0["pre"] == "x86" and not done:
+                o = o[:max(len(o) - 5, 0)]
             return o, done, ([dict(kind="lzma1_end")] if done else []), r.status
         r = gl2.decode(out, self.ds, collect=None)
         if r.status not in ("ok", "need_more"):
@@ -149,8 +157,9 @@ class Judge:
             done = full
         elif self.enc == "raw" and done and r.consumed != len(out):
             return o, False, None, "bytes after the LZMA2 end marker"
-        if self.chain0["pre"] == "delta" or done:
-            o = self._unfilter(o)
+        o = self._unfilter(o)
+        if self.chain0["pre"] == "x86" and not (r.status == "ok"):
+            o = o[:max(len(o) - 5, 0)]       # a BCJ decoder cannot know the last bytes of an unfinished payload yet
         return o, done, toks, r.status
 
 def _props_name(b):
@@ -318,3 +327,26 @@ def run_history(hist, rng, max_calls=400000, probe=True):
     events[0]["toks"] = g_toks
     c.end()
     return dict(events=events, ops=obs_ops, problems=problems, out=out, data=data, toks=g_toks, ncalls=ncalls)
+
+# ------------------------------------------------------------------------------------------------ worker process
+def worker_main():
+    """Child process (crash isolation): one JSON line {hist, seed} in, one JSON line out."""
+    import sys, json, random, os
+    from lib import build
+    so = os.environ["C12_LIBLZMA"]
+    lz.load(so)
+    out = sys.stdout
+    for line in sys.stdin:
+        req = json.loads(line)
+        # tell the parent what is being executed, in case the process dies
+        sys.stderr.write("C12-RUNNING %s\n" % json.dumps(req["hist"])[:300]); sys.stderr.flush()
+        try:
+            res = run_history(req["hist"], random.Random(req["seed"]))
+            ans = dict(ok=True, hist=req["hist"], events=res["events"], ops=res["ops"],
+                       problems=res["problems"], toks=res["toks"], ncalls=res["ncalls"])
+        except DriverError as e:
+            ans = dict(ok=False, error=str(e), hist=req["hist"])
+        out.write(json.dumps(ans) + "\n"); out.flush()
+
+if __name__ == "__main__":
+    worker_main()
